@@ -229,35 +229,88 @@ CalcValueNoW(amount, price, dec) ==
   IF BIsZero(amount) THEN BZero ELSE FDiv(FMul(amount, price), Exp10(dec))
 CalcAmount(value, price, dec) == FDiv(FMul(value, Exp10(dec)), price)
 SideOf(s) == IF ~BLt(s.l, IONE) THEN "L" ELSE IF ~BLt(s.a, IONE) THEN "A" ELSE "N"
-\* weighted (asset, liability) value of one slot; req in {"Init","Maint","Equity"}; Fixed oracle: price = cfg.fixed_price, no bias
-SlotValue(b, s, req) ==
-  LET side == SideOf(s) p == b.cfg.fixed_price IN
+\* ---- oracle prices as the risk engine reads them (Fixed and Pyth push feeds) ------------------------------------------
+\* pyth_price_components_to_i80f48: the integer times 10^expo, one truncating division or one flooring multiplication
+PythToFix(n, expo) == IF expo = 0 THEN FOfBig(n) ELSE IF expo < 0 THEN FDiv(FOfBig(n), Exp10(-expo)) ELSE FMul(FOfBig(n), Exp10(expo))
+\* PythPushOraclePriceFeed::get_confidence_interval: 2.12 sigma, refused beyond the bank's maximum (default 10 %), capped at 5 %
+ImplPythConf(o, useEma, maxconf) ==
+  LET c == FMul(PythToFix(IF useEma THEN o.ema_conf ELSE o.conf, o.expo), IC_CONF_INTERVAL_MULTIPLE)
+      p == PythToFix(IF useEma THEN o.ema ELSE o.price, o.expo)
+      mc == IF BIsPos(maxconf) THEN FOfBig(maxconf) ELSE IC_U32_MAX_DIV_10
+      maxc == FDiv(FMul(p, mc), IC_U32_MAX)
+  IN IF BGt(c, maxc) THEN E("OracleMaxConfidenceExceeded") ELSE [v |-> BMin(c, FMul(p, IC_MAX_CONF_INTERVAL))]
+\* what the engine knows about a bank's price at time `now`: whether the feed loads at all (load = "ok" or the error),
+\* the time-weighted and the real-time price, and for each its confidence interval (or the error asking for it raises)
+ImplPx(b, oracles, now) ==
+  IF b.cfg.oracle_setup # 3 \/ ~Has(oracles, b.cfg.oracle_keys[1]) THEN
+     [load |-> "ok", pTW |-> b.cfg.fixed_price, pRT |-> b.cfg.fixed_price, cTW |-> [v |-> BZero], cRT |-> [v |-> BZero]]
+  ELSE LET o == oracles[b.cfg.oracle_keys[1]]
+           maxAge == IF b.cfg.oracle_max_age = 0 THEN IC_MAX_PYTH_ORACLE_AGE ELSE BOfInt(b.cfg.oracle_max_age)
+           load == IF ~o.owner_ok THEN "PythPushWrongAccountOwner"
+                   ELSE IF BLt(BAdd(o.ts, maxAge), now) THEN "PythPushStalePrice" ELSE "ok"
+       IN [load |-> load, pTW |-> PythToFix(o.ema, o.expo), pRT |-> PythToFix(o.price, o.expo),
+           cTW |-> ImplPythConf(o, TRUE, b.cfg.oracle_max_conf), cRT |-> ImplPythConf(o, FALSE, b.cfg.oracle_max_conf)]
+PxOf(b) == IF Has(b, "px") THEN b.px
+           ELSE [load |-> "ok", pTW |-> b.cfg.fixed_price, pRT |-> b.cfg.fixed_price, cTW |-> [v |-> BZero], cRT |-> [v |-> BZero]]
+\* banks annotated with their prices (transient: never part of a state that is emitted or compared)
+WithPx(banks, oracles, now) == [bn \in DOMAIN banks |-> banks[bn] @@ [px |-> ImplPx(banks[bn], oracles, now)]]
+
+\* ---- e-mode: the reconciled configuration of the banks the account borrows from (reconcile_emode_configs) -----------
+EmEntries(b) == {i \in DOMAIN b.emode.entries : b.emode.entries[i].tag # 0}
+ImplEmode(banks, bal) ==
+  LET D == {bal[i].bank : i \in {j \in DOMAIN bal : IsActive(bal[j]) /\ ~BLt(bal[j].l, IONE)}}
+      TagsOf(bn) == {banks[bn].emode.entries[i].tag : i \in EmEntries(banks[bn])}
+      common == IF D = {} THEN {} ELSE {t \in UNION {TagsOf(bn) : bn \in D} : \A bn \in D : t \in TagsOf(bn)}
+      Ent(bn, t) == banks[bn].emode.entries[CHOOSE i \in EmEntries(banks[bn]) : banks[bn].emode.entries[i].tag = t]
+      MinOf(S) == CHOOSE x \in S : \A y \in S : BLe(x, y)
+  IN [t \in common |-> [init |-> MinOf({Ent(bn, t).init : bn \in D}), maint |-> MinOf({Ent(bn, t).maint : bn \in D})]]
+
+\* weighted (asset, liability) value of one slot, or the error the valuation raises; req in {"Init","Maint","Equity"};
+\* em: the reconciled e-mode configuration (tag -> weights).  calc_weighted_asset_value / calc_weighted_liab_value.
+SlotValue(b, s, req, em) ==
+  LET side == SideOf(s) px == PxOf(b)
+      p == IF req = "Maint" THEN px.pRT ELSE px.pTW
+      c == IF req = "Maint" THEN px.cRT ELSE px.cTW
+  IN
   IF side = "A" THEN
      IF b.cfg.risk_tier = 1 THEN <<BZero, BZero>>
      ELSE IF b.cfg.op_state = OP_REDUCE_ONLY /\ req = "Init" THEN <<BZero, BZero>>
-     ELSE LET w0 == IF req = "Init" THEN b.cfg.aw_init ELSE IF req = "Maint" THEN b.cfg.aw_maint ELSE FOne
+     ELSE IF px.load # "ok" THEN (IF req = "Init" THEN <<BZero, BZero>> ELSE E(px.load))
+     ELSE IF IsErr(c) THEN c
+     ELSE LET low == BSub(p, c.v)
+              bw == IF req = "Init" THEN b.cfg.aw_init ELSE IF req = "Maint" THEN b.cfg.aw_maint ELSE FOne
+              t == b.emode.tag
+              w0 == IF t # 0 /\ t \in DOMAIN em
+                    THEN BMax(bw, IF req = "Init" THEN em[t].init ELSE IF req = "Maint" THEN em[t].maint ELSE FOne)
+                    ELSE bw
               w == IF req = "Init" /\ ~BIsZero(b.cfg.init_limit)
-                   THEN LET tv == CalcValueNoW(AssetAmount(b, b.tas), p, b.dec) lim == FOfBig(b.cfg.init_limit) IN
+                   THEN LET tv == CalcValueNoW(AssetAmount(b, b.tas), low, b.dec) lim == FOfBig(b.cfg.init_limit) IN
                         IF BGt(tv, lim) THEN FMul(w0, FDiv(lim, tv)) ELSE w0
                    ELSE w0
-          IN <<CalcValue(AssetAmount(b, s.a), p, b.dec, w), BZero>>
+          IN <<CalcValue(AssetAmount(b, s.a), low, b.dec, w), BZero>>
   ELSE IF side = "L" THEN
-     LET w == IF req = "Init" THEN b.cfg.lw_init ELSE IF req = "Maint" THEN b.cfg.lw_maint ELSE FOne IN
-     <<BZero, CalcValue(LiabAmount(b, s.l), p, b.dec, w)>>
+     IF px.load # "ok" THEN E(px.load)
+     ELSE IF IsErr(c) THEN c
+     ELSE LET w == IF req = "Init" THEN b.cfg.lw_init ELSE IF req = "Maint" THEN b.cfg.lw_maint ELSE FOne IN
+          <<BZero, CalcValue(LiabAmount(b, s.l), BAdd(p, c.v), b.dec, w)>>
   ELSE <<BZero, BZero>>
-RECURSIVE HealthSum(_, _, _, _)
-HealthSum(banks, bal, i, req) ==
+RECURSIVE HealthSum(_, _, _, _, _)
+HealthSum(banks, bal, i, req, em) ==
   IF i > Len(bal) THEN <<BZero, BZero>>
-  ELSE LET rest == HealthSum(banks, bal, i + 1, req) IN
-       IF ~IsActive(bal[i]) THEN rest
-       ELSE LET v == SlotValue(banks[bal[i].bank], bal[i], req) IN <<BAdd(v[1], rest[1]), BAdd(v[2], rest[2])>>
-HealthComponents(banks, bal, req) == HealthSum(banks, bal, 1, req)
+  ELSE IF ~IsActive(bal[i]) THEN HealthSum(banks, bal, i + 1, req, em)
+  ELSE LET v == SlotValue(banks[bal[i].bank], bal[i], req, em) IN
+       IF IsErr(v) THEN v
+       ELSE LET rest == HealthSum(banks, bal, i + 1, req, em) IN
+            IF IsErr(rest) THEN rest ELSE <<BAdd(v[1], rest[1]), BAdd(v[2], rest[2])>>
+\* (assets, liabilities) or the first error in slot order
+HealthComponents(banks, bal, req) == HealthSum(banks, bal, 1, req, ImplEmode(banks, bal))
 \* check_account_init_health -> "ok" or error name
 ImplInitHealth(banks, bal) ==
   LET h == HealthComponents(banks, bal, "Init")
       debts == {i \in DOMAIN bal : IsActive(bal[i]) /\ ~BLt(bal[i].l, IONE)}
       iso == {i \in debts : banks[bal[i].bank].cfg.risk_tier = 1}
-  IN IF BLt(h[1], h[2]) THEN "RiskEngineInitRejected"
+  IN IF IsErr(h) THEN h.err
+     ELSE IF BLt(h[1], h[2]) THEN "RiskEngineInitRejected"
      ELSE IF iso # {} /\ Cardinality(debts) # 1 THEN "IsolatedAccountIllegalState"
      ELSE "ok"
 
